@@ -396,6 +396,10 @@ P_C09_nesting(c) ==
 (* ---- C08: link footnotes are numbered consistently with their references ------------------------ *)
 \* rendered links of the document in order: a[href] with visible content; [href, endpos] where endpos
 \* is the number of letters of V(d) up to the end of the link
+\* (inner = number of rendered links nested inside this one - links nest through a table cell.  A reference follows the
+\*  end of its link, so the references appear in the post-order of the link tree: PostIdx(links, k) is the place of link
+\*  k in that order, = k when no link nests)
+PostIdx(links, k) == k + links[k].inner - Cardinality({i \in 1..(k - 1) : i + links[i].inner >= k})
 RECURSIVE LinkInfo(_, _)
 LinkInfoSeq(ns, before) ==
   FoldLeft(LAMBDA a, n : LET r == LinkInfo(n, a.before) IN [before |-> r.before, out |-> a.out \o r.out],
@@ -406,7 +410,7 @@ LinkInfo(n, before) ==
   ELSE IF IsHtml(n, "img") THEN [before |-> before + Len(Letters(FlowText(n))), out |-> <<>>]
   ELSE LET inner == LinkInfoSeq(n.c, before) IN
        IF IsHtml(n, "a") /\ HasAttr(n, "href") /\ NonWs(FlowText(n)) # <<>>
-       THEN [before |-> inner.before, out |-> << [href |-> n.a.href.c, endpos |-> inner.before] >> \o inner.out]
+       THEN [before |-> inner.before, out |-> << [href |-> n.a.href.c, endpos |-> inner.before, inner |-> Len(inner.out)] >> \o inner.out]
        ELSE inner
 \* a textless link that still gets numbered because decoration pseudo-content fills it (known finding)
 DecoratedEmptyLink(dom, cf) ==
@@ -486,10 +490,11 @@ P_C08(c) ==
                THEN LET whole == Concat([i \in 1..nbody |-> RefsIn(NoStrike(body[i]))]) IN
                     /\ \A i \in 1..Len(whole) : whole[i].k \in 1..n
                     /\ \A i, j \in 1..Len(whole) : i # j => whole[i].k # whole[j].k
-               ELSE \* the readable references are increasing numbers of 1..n; one may be missing only for
+               ELSE \* the readable references are numbers of 1..n in the order in which their links end (increasing
+                    \* when no link nests in another); one may be missing only for
                     \* each reference that hard wrapping cut into three or more pieces
                     /\ \A i \in 1..Len(refs) : refs[i].k \in 1..n
-                    /\ \A i \in 1..(Len(refs) - 1) : refs[i].k < refs[i + 1].k
+                    /\ \A i \in 1..(Len(refs) - 1) : PostIdx(links, refs[i].k) < PostIdx(links, refs[i + 1].k)
                     /\ n - Len(refs) <= parsed.unmatched
                     \* and reference k follows the text of link k: no letter between the end of the link
                     \* and its reference
